@@ -19,7 +19,7 @@ from ..space import Alt, Const, Map, Prod
 
 ID = "C12"
 LEVEL = "fault_enumeration"
-RULE = ("full product: script file(s) from a 14-name alphabet (space % # ? + ; & ' \" <> %41 non-ASCII "
+RULE = ("full product: script file(s) from a 16-name alphabet (space % # ? + ; & ' \" <> %41 non-ASCII leading-dot "
         "nested-dir plain; singles and adjacent pairs) x stylesheet {none, one} x all_files x source "
         "{directory, importable package, URL with/without trailing slash, none} x libdir {'lib', None, "
         "'x/y'} x include_version x pre-existing target {absent, stale file, stale sub-directory} x "
@@ -33,7 +33,7 @@ ASSUMPTIONS = [
 ]
 
 FILES = ["plain.js", "sp ace.js", "pct%.js", "hash#.js", "q?.js", "plus+.js", "semi;.js", "amp&.js",
-         "apos'.js", 'quot".js', "lt<gt>.js", "%41.js", "é中.js", "sub/dir/n.js"]
+         "apos'.js", 'quot".js', "lt<gt>.js", "%41.js", "é中.js", "sub/dir/n.js", ".dot.js", ".d.d/..in.js"]
 STYLE = "st yle&.css"
 EXTRA = ["extra.txt", "assets/img.bin", ".hidden.css", ".dotdir/inner.js"]
 _FX = {}
@@ -137,6 +137,8 @@ def fn(case):
     dname, dver = IDENT[ident]
     viols = []
     tdir = tempfile.mkdtemp(prefix="c", dir=os.path.join(_FX["root"], "t"))
+    if libdir == "ABS":
+        libdir = os.path.join(tdir, "abs.lib")       # an absolute libdir (starts with '/')
     try:
         dep = make_dep(scripts, style, all_files, source_kind, missing, ident)
         info = {"name": dname, "version": dver, "source": dep.source}
@@ -382,6 +384,270 @@ def fn_missing_dir(case):
         shutil.rmtree(tdir, ignore_errors=True)
 
 
+# ------------------------------------------------------------------ user subclasses, aliased paths
+def saved_urls(file):
+    text = open(file, encoding="utf-8").read()
+    urls = []
+    for t in tokenize(text):
+        if t[0] in ("open", "void") and t[1] in ("script", "link"):
+            for k, v in t[2]:
+                if (t[1], k) in (("script", "src"), ("link", "href")):
+                    urls.append(_html.unescape(v))
+    return urls
+
+
+_SUBCLS = {}
+
+
+def vendored_cls(kind):
+    """user subclasses of HTMLDependency overriding the public source_path_map()."""
+    if kind in _SUBCLS:
+        return _SUBCLS[kind]
+    import posixpath
+    from htmltools import HTMLDependency
+
+    class VendoredDep(HTMLDependency):
+        """puts its files under <prefix>/vendor-<name>[-v<version>]"""
+
+        def source_path_map(self, *, lib_prefix="lib", include_version=True):
+            m = super().source_path_map(lib_prefix=lib_prefix, include_version=include_version)
+            if not m["source"]:
+                return m
+            href = "vendor-" + self.name + ("-v" + str(self.version) if include_version else "")
+            if lib_prefix:
+                href = posixpath.join(lib_prefix, href)
+            return {"source": m["source"], "href": href}
+
+    class FlatDep(HTMLDependency):
+        """never puts the version in the directory name"""
+
+        def source_path_map(self, *, lib_prefix="lib", include_version=True):
+            return super().source_path_map(lib_prefix=lib_prefix, include_version=False)
+
+    class PlainSub(HTMLDependency):
+        """overrides nothing, carries an extra attribute"""
+
+        def __init__(self, *a, **kw):
+            super().__init__(*a, **kw)
+            self.note = "extra"
+
+    _SUBCLS.update({"vendored": VendoredDep, "flat": FlatDep, "plain-subclass": PlainSub})
+    return _SUBCLS[kind]
+
+
+def fn_subclass(case):
+    """a user subclass of HTMLDependency (overriding source_path_map(), or nothing): the URLs in the
+    written file must still name the files that were copied, byte-identical to their sources."""
+    from htmltools import HTMLDocument, Tag, TagList
+    kind, scripts, style, all_files, source_kind, libdir, incv, caller = case
+    viols = []
+    tdir = tempfile.mkdtemp(prefix="c", dir=os.path.join(_FX["root"], "t"))
+    try:
+        cls = vendored_cls(kind)
+        if source_kind == "dir":
+            source = {"subdir": src_dir_for("dir")}
+        else:
+            source = {"package": _FX["pkg"], "subdir": os.path.basename(src_dir_for("package"))}
+        dep = cls("my.dep_1", "1.2.3", source=source, script=[{"src": x} for x in scripts],
+                  stylesheet=[{"href": style}] if style else [], all_files=all_files)
+        file = os.path.join(tdir, "index.html")
+        destdir = os.path.join(tdir, libdir) if libdir else tdir
+        try:
+            if caller == "document":
+                HTMLDocument(Tag("p", PAGE_TEXT), dep).save_html(file, libdir=libdir, include_version=incv)
+            elif caller == "tag":
+                Tag("div", "x", dep).save_html(file, libdir=libdir, include_version=incv)
+            elif caller == "list":
+                TagList("x", Tag("span", dep)).save_html(file, libdir=libdir, include_version=incv)
+            else:
+                dep.copy_to(destdir, include_version=incv)
+        except Exception as e:
+            viols.append(("subclass:unexpected-error", f"{kind}: save_html/copy_to raised {e!r}", {}))
+            return (True, "raised", viols, 1)
+        m = dep.source_path_map(lib_prefix=libdir, include_version=incv)
+        src_root = m["source"]
+        listed = ([style] if style else []) + list(scripts)
+        if caller == "copy_to":
+            d = dep.as_dict(lib_prefix=libdir, include_version=incv)
+            urls = [x["href"] for x in d["stylesheet"]] + [x["src"] for x in d["script"]]
+        else:
+            try:
+                urls = saved_urls(file)
+            except TokenError as e:
+                viols.append(("html-untokenizable", str(e), {}))
+                return (True, None, viols, 1)
+        if len(urls) != len(listed):
+            viols.append(("subclass:url-count", f"{kind}: {len(urls)} URLs for {len(listed)} listed files", {"observed": urls}))
+        for u, rel in zip(urls, listed):
+            want = join_url(m["href"], pct_encode(rel))
+            if u != want:
+                viols.append(("subclass:url-form", f"{kind}: URL is not <the dependency's own source_path_map() href>/"
+                              "percent-encoded path", {"observed": u, "expected": want}))
+            pth = os.path.normpath(os.path.join(tdir, urllib.parse.unquote(u)))
+            if not os.path.isfile(pth):
+                viols.append(("subclass:url-dangling", f"{kind}: URL {u!r} does not name a copied file",
+                              {"copied": [x if isinstance(x, str) else x[0] for x in listing(tdir)][:12]}))
+            elif open(pth, "rb").read() != open(os.path.join(src_root, rel), "rb").read():
+                viols.append(("subclass:copied-file-differs", f"{kind}: {u!r} is not byte-identical to its source", {}))
+        if all_files:
+            target = os.path.normpath(os.path.join(tdir, m["href"]))
+            if listing(target) != listing(src_root):
+                viols.append(("subclass:all_files:tree-differs", f"{kind}: target is not a copy of the whole source directory", {}))
+        return (True, (kind, caller), viols, 1)
+    finally:
+        shutil.rmtree(tdir, ignore_errors=True)
+
+
+_PKGN = [0]
+
+
+def fn_alias(case):
+    """the directory the files are to be copied to IS the source directory, but reached through
+    another spelling (a symbolic link in the output path, a symbolic link in the source path, a
+    package source with '..' in its sub-directory, a sys.path entry that is a symbolic link):
+    nothing may be destroyed, and if saving succeeds the URLs must name existing files."""
+    import importlib
+    from htmltools import HTMLDependency, HTMLDocument, Tag
+    variant, files, all_files, caller = case
+    viols = []
+    tdir = os.path.realpath(tempfile.mkdtemp(prefix="c", dir=os.path.join(_FX["root"], "t")))
+    added_path = None
+    pkgname = None
+    try:
+        libdir = None
+        if variant == "symlinked-libdir":
+            real = os.path.join(tdir, "assets", "widget")
+            populate(real)
+            os.makedirs(os.path.join(tdir, "site"))
+            os.symlink(os.path.join("..", "assets"), os.path.join(tdir, "site", "lib"))
+            outdir, libdir, source = os.path.join(tdir, "site"), "lib", {"subdir": real}
+        elif variant == "symlinked-output-dir":
+            real = os.path.join(tdir, "site", "widget")
+            populate(real)
+            os.symlink("site", os.path.join(tdir, "link"))
+            outdir, source = os.path.join(tdir, "link"), {"subdir": real}
+        elif variant == "symlinked-source":
+            real = os.path.join(tdir, "site", "widget")
+            populate(real)
+            os.symlink("site", os.path.join(tdir, "link"))
+            outdir, source = os.path.join(tdir, "site"), {"subdir": os.path.join(tdir, "link", "widget")}
+        elif variant in ("package-dotdot", "package-via-symlinked-syspath"):
+            _PKGN[0] += 1
+            pkgname = f"hvalias{os.getpid()}x{_PKGN[0]}"
+            base = os.path.join(tdir, "pk")
+            os.makedirs(os.path.join(base, pkgname, "app"))
+            open(os.path.join(base, pkgname, "__init__.py"), "w").close()
+            open(os.path.join(base, pkgname, "app", "__init__.py"), "w").close()
+            real = os.path.join(base, pkgname, "static", "widget")
+            populate(real)
+            outdir = os.path.join(base, pkgname, "static")
+            if variant == "package-dotdot":
+                added_path = base
+                source = {"package": pkgname + ".app", "subdir": "../static/widget"}
+            else:
+                os.symlink("pk", os.path.join(tdir, "pklink"))
+                added_path = os.path.join(tdir, "pklink")
+                source = {"package": pkgname, "subdir": "static/widget"}
+            sys.path.insert(0, added_path)
+            importlib.invalidate_caches()
+        else:
+            raise ValueError(variant)
+        before = listing(real)
+        dep = HTMLDependency("widget", "1.0", source=source, script=[{"src": f} for f in files], all_files=all_files)
+        file = os.path.join(outdir, "index.html")
+        try:
+            if caller == "copy_to":
+                dep.copy_to(os.path.join(outdir, libdir) if libdir else outdir, include_version=False)
+            else:
+                HTMLDocument(Tag("p", "x"), dep).save_html(file, libdir=libdir, include_version=False)
+        except Exception as e:
+            if listing(real) != before:
+                viols.append((f"alias:{variant}:raised-and-destroyed", f"{type(e).__name__} raised and the source directory changed", {}))
+            return (True, "raised", viols, 1)
+        after = listing(real)
+        lost = [x if isinstance(x, str) else x[0] for x in before if x not in after]
+        if lost:
+            viols.append((f"alias:{variant}:source-destroyed", "the target directory is the source directory under another "
+                          "spelling; saving deleted or changed source files", {"lost": lost[:10]}))
+        elif caller != "copy_to":
+            for u in saved_urls(file):
+                pth = os.path.normpath(os.path.join(outdir, urllib.parse.unquote(u)))
+                if not os.path.isfile(pth):
+                    viols.append((f"alias:{variant}:url-dangling", f"URL {u!r} names no file after save_html", {}))
+                    break
+        return (True, (variant, "saved"), viols, 1)
+    finally:
+        if added_path and added_path in sys.path:
+            sys.path.remove(added_path)
+        if pkgname:
+            for k in [k for k in sys.modules if k == pkgname or k.startswith(pkgname + ".")]:
+                del sys.modules[k]
+        shutil.rmtree(tdir, ignore_errors=True)
+
+
+def fn_pkglayout(case):
+    """package sources in unusual layouts: the package's __init__.py is a symbolic link to a file kept
+    elsewhere (a 'link farm'); the dependency's files are the ones in the package directory."""
+    import importlib
+    from htmltools import HTMLDependency, HTMLDocument, Tag
+    layout, elsewhere, all_files, caller = case
+    viols = []
+    tdir = os.path.realpath(tempfile.mkdtemp(prefix="c", dir=os.path.join(_FX["root"], "t")))
+    _PKGN[0] += 1
+    pkgname = f"hvfarm{os.getpid()}x{_PKGN[0]}"
+    base = os.path.join(tdir, "site-packages")
+    try:
+        pdir = os.path.join(base, pkgname)
+        os.makedirs(os.path.join(pdir, "www"))
+        with open(os.path.join(pdir, "www", "w.js"), "w") as f:
+            f.write("// the package's own file")
+        with open(os.path.join(pdir, "www", "other.txt"), "w") as f:
+            f.write("other")
+        store = os.path.join(tdir, "store", "abc123")
+        os.makedirs(store)
+        if layout == "init-is-symlink":
+            with open(os.path.join(store, "__init__.py"), "w") as f:
+                f.write("")
+            os.symlink(os.path.join(store, "__init__.py"), os.path.join(pdir, "__init__.py"))
+        else:
+            open(os.path.join(pdir, "__init__.py"), "w").close()
+        if elsewhere == "stale-copy":
+            os.makedirs(os.path.join(store, "www"))
+            with open(os.path.join(store, "www", "w.js"), "w") as f:
+                f.write("// STALE file next to the link target")
+        sys.path.insert(0, base)
+        importlib.invalidate_caches()
+        dep = HTMLDependency("farm", "2.0", source={"package": pkgname, "subdir": "www"}, script={"src": "w.js"},
+                             all_files=all_files)
+        out = os.path.join(tdir, "out")
+        os.makedirs(out)
+        file = os.path.join(out, "index.html")
+        try:
+            if caller == "copy_to":
+                dep.copy_to(os.path.join(out, "lib"))
+            else:
+                HTMLDocument(Tag("p", "x"), dep).save_html(file)
+        except Exception as e:
+            viols.append((f"pkglayout:{layout}:raises", f"copying a file that exists in the package directory raised "
+                          f"{type(e).__name__}: {e}", {}))
+            return (True, "raised", viols, 1)
+        got = os.path.join(out, "lib", "farm-2.0", "w.js")
+        if not os.path.isfile(got):
+            viols.append((f"pkglayout:{layout}:not-copied", "lib/farm-2.0/w.js missing", {}))
+        elif open(got).read() != "// the package's own file":
+            viols.append((f"pkglayout:{layout}:wrong-bytes", "the copied file is not the file in the package directory",
+                          {"observed": open(got).read()}))
+        if all_files and not os.path.isfile(os.path.join(out, "lib", "farm-2.0", "other.txt")):
+            viols.append((f"pkglayout:{layout}:all_files", "whole source directory not copied", {}))
+        return (True, (layout, elsewhere), viols, 1)
+    finally:
+        if base in sys.path:
+            sys.path.remove(base)
+        for k in [k for k in sys.modules if k == pkgname or k.startswith(pkgname + ".")]:
+            del sys.modules[k]
+        shutil.rmtree(tdir, ignore_errors=True)
+
+
 def plan(tier):
     singles = [[f] for f in FILES]
     pairs = [[FILES[i], FILES[i + 1]] for i in range(len(FILES) - 1)] + [[FILES[-1], FILES[0]]]
@@ -397,7 +663,7 @@ def plan(tier):
                  Const(["lib", None, "x/y"]), Const([True, False]), Const(["absent", "file", "dir"]),
                  Const(["document"]), Const([[]]))
         b = Prod(Const(singles), Const([STYLE]), Const([False, True]), Const(["dir", "package", "url"]),
-                 Const(["lib", None]), Const([True]), Const(["absent", "dir"]),
+                 Const(["lib", None]), Const([True, False]), Const(["absent", "dir"]),
                  Const(["tag", "list", "copy_to"]), Const([[]]))
         main = Alt(a, b)
     else:
@@ -424,7 +690,28 @@ def plan(tier):
                     Const(["document", "copy_to"]), Const([[]]), Const(["same-dict-twice"]))
     inplace = Prod(Const([[FILES[0]], [FILES[0], FILES[-1]], []]), Const([False, True]), Const(["document", "copy_to"]),
                    Const(["source-is-target", "source-inside-target"]))
+    abslib = Prod(Const([[FILES[0]], [FILES[1], FILES[2]], []]), Const([None, STYLE]), Const([False, True]),
+                  Const(["dir", "package", "url"]), Const(["ABS"]), Const([True, False]), Const(["absent", "dir"]),
+                  Const(["document", "tag", "list", "copy_to"]), Const([[]]))
+    subcls = Prod(Const(["vendored", "flat", "plain-subclass"]), Const([[FILES[0]], [FILES[1], FILES[-1]]]),
+                  Const([None, STYLE]), Const([False, True]), Const(["dir", "package"]), Const(["lib", None, "x/y"]),
+                  Const([True, False]), Const(["document", "tag", "list", "copy_to"]))
+    alias = Prod(Const(["symlinked-libdir", "symlinked-output-dir", "symlinked-source", "package-dotdot",
+                        "package-via-symlinked-syspath"]),
+                 Const([[FILES[0]], [FILES[0], FILES[-1]], []]), Const([False, True]), Const(["document", "copy_to"]))
+    pkglay = Prod(Const(["init-is-symlink", "regular"]), Const(["stale-copy", "nothing"]), Const([False, True]),
+                  Const(["document", "copy_to"]))
     return [
+        dict(kind="space", name="user-subclass-of-HTMLDependency", space=subcls, fn=fn_subclass,
+             note="subclasses overriding source_path_map() (other directory name; never a version) or nothing: the URLs "
+                  "written must be the subclass's own href + percent-encoded path and name the copied files"),
+        dict(kind="space", name="target-is-the-source-under-another-spelling", space=alias, fn=fn_alias, serial=True,
+             note="symlinked libdir / output dir / source path, package source with '..', symlinked sys.path entry"),
+        dict(kind="space", name="package-layouts", space=pkglay, fn=fn_pkglayout, serial=True,
+             note="package whose __init__.py is a symbolic link to a file kept elsewhere (with / without a stale "
+                  "same-named file next to the link target)"),
+        dict(kind="space", name="absolute-libdir", space=abslib, fn=fn,
+             note="libdir is an absolute path: URLs keep the leading slash and name the copied files"),
         dict(kind="space", name="relative-paths-and-cwd", fn=fn_cwd, serial=True,
              space=Prod(Const(["bare-filename", "absolute-filename"]), Const(["lib", None]), Const([True, False])),
              note="bare output file name; relative source sub-directory used from two working directories in one process"),
